@@ -32,6 +32,26 @@ VERIF_MAIN(H_ENTRY)
 static struct trie_node g_t[TS_N + 1]; /* last slot: the new node for insert */
 static bool g_present[TS_N];
 static int g_payload[TS_N + 1];
+static unsigned int g_lvl0; /* level of the top node */
+static unsigned int g_depth[TS_N + 1];
+static unsigned int g_path[TS_N + 1]; /* branch decisions from the top node: bit d = side taken at depth d */
+/* bit number k of a prefix (0 = most significant), total for k beyond the width */
+static unsigned int pbit(const struct lrtr_ip_addr *a, unsigned int k)
+{
+	if (a->ver == LRTR_IPV6)
+		return k < 128 ? SPEC_BIT128(a->u.addr6.addr, k < 128 ? k : 0) : 0;
+	return k < 32 ? SPEC_BIT32(a->u.addr4.addr, k < 32 ? k : 0) : 0;
+}
+/* the first `depth` bits below level g_lvl0 of a prefix equal the branch decisions that lead to its node */
+static bool on_path(const struct lrtr_ip_addr *a, unsigned int depth, unsigned int path)
+{
+	bool ok = true;
+
+	for (unsigned int d = 0; d < TS_DEPTH + 1; d++)
+		if (d < depth && pbit(a, g_lvl0 + d) != ((path >> d) & 1u))
+			ok = false;
+	return ok;
+}
 
 static void mk_tree(bool v6, unsigned int lvl0)
 {
@@ -51,12 +71,19 @@ static void mk_tree(bool v6, unsigned int lvl0)
 			g_t[i].rchild = &g_t[2 * i + 2];
 		/* trie invariant: children are not shorter than their parent, and hang on the side their own bit selects */
 		if (i && g_present[i]) {
-			unsigned int d = 0;
+			unsigned int d = 0, path = 0;
 
 			for (unsigned int j = i; j; j = (j - 1) / 2)
 				d++;
+			/* branch decisions from the top node down to slot i */
+			unsigned int dd = d;
+
+			for (unsigned int j = i; j; j = (j - 1) / 2) {
+				dd--;
+				path |= ((j % 2) ? 0u : 1u) << dd;
+			}
 			ASSUME(g_t[i].len >= g_t[(i - 1) / 2].len);
-			ASSUME(pbit(&g_t[i].prefix, lvl0 + d - 1) == ((i % 2) ? 0u : 1u));
+			ASSUME(on_path(&g_t[i].prefix, d, path));
 		}
 	}
 }
@@ -65,15 +92,6 @@ static void mk_tree(bool v6, unsigned int lvl0)
 static bool reach[TS_N + 1];
 static unsigned int count_payload[TS_N + 1];
 static bool g_len_ok, g_parent_ok, g_stray, g_side_ok;
-static unsigned int g_depth[TS_N + 1];
-static unsigned int g_lvl0;
-/* bit number k of a prefix (0 = most significant), total for k beyond the width */
-static unsigned int pbit(const struct lrtr_ip_addr *a, unsigned int k)
-{
-	if (a->ver == LRTR_IPV6)
-		return k < 128 ? SPEC_BIT128(a->u.addr6.addr, k < 128 ? k : 0) : 0;
-	return k < 32 ? SPEC_BIT32(a->u.addr4.addr, k < 32 ? k : 0) : 0;
-}
 static void survey(struct trie_node *root)
 {
 	for (unsigned int i = 0; i <= TS_N; i++) {
@@ -82,8 +100,10 @@ static void survey(struct trie_node *root)
 	}
 	g_len_ok = g_parent_ok = g_side_ok = true;
 	g_stray = false;
-	for (unsigned int i = 0; i <= TS_N; i++)
+	for (unsigned int i = 0; i <= TS_N; i++) {
 		g_depth[i] = 0;
+		g_path[i] = 0;
+	}
 	if (root) {
 		if (!__CPROVER_same_object(root, g_t)) {
 			g_stray = true;
@@ -104,8 +124,9 @@ static void survey(struct trie_node *root)
 						} else {
 							reach[c[k] - g_t] = true;
 							g_depth[c[k] - g_t] = g_depth[i] + 1;
-							/* a node hangs on the side its own prefix bit at the parent's level selects */
-							if (pbit(&c[k]->prefix, g_lvl0 + g_depth[i]) != k)
+							g_path[c[k] - g_t] = g_path[i] | (k << g_depth[i]);
+							/* a node's prefix bits are the branch decisions that lead to it (all of them) */
+							if (!on_path(&c[k]->prefix, g_depth[i] + 1, g_path[c[k] - g_t]))
 								g_side_ok = false;
 							if (c[k]->len < g_t[i].len)
 								g_len_ok = false;
@@ -144,7 +165,7 @@ void h_shape_remove(void)
 	CHECK(!reach[r - g_t], "C02 remove: the node handed back is no longer reachable");
 	CHECK(g_len_ok, "C02 remove: children are still not shorter than their parent, everywhere");
 	CHECK(g_parent_ok, "C02 remove: parent links are consistent");
-	CHECK(g_side_ok, "C01/C02 remove: every node still hangs on the side its own prefix bit selects (covering records stay on the query's path)");
+	CHECK(g_side_ok, "C01/C02 remove: every node's prefix bits are still the branch decisions that lead to it (covering records stay on the query's path)");
 	for (unsigned int i = 1; i < TS_N; i++)
 		CHECK(count_payload[i] == (g_present[i] ? 1u : 0u), "C02 remove: every other payload is still in the tree exactly once");
 	CHECK(count_payload[0] == 0, "C02 remove: the removed payload is gone");
@@ -182,7 +203,7 @@ void h_shape_insert(void)
 	CHECK(!g_stray, "C02 insert: links stay inside the tree");
 	CHECK(g_len_ok, "C02 insert: children are not shorter than their parent, everywhere (shorter prefixes stay above)");
 	CHECK(g_parent_ok, "C02 insert: parent links are consistent");
-	CHECK(g_side_ok, "C01/C02 insert: every node, also a displaced one, hangs on the side its own prefix bit selects");
+	CHECK(g_side_ok, "C01/C02 insert: every node's prefix bits, also a displaced one's, are the branch decisions that lead to it");
 	for (unsigned int i = 0; i <= TS_N; i++)
 		CHECK(count_payload[i] == ((i == TS_N || g_present[i]) ? 1u : 0u), "C02 insert: every old payload and the new one are in the tree exactly once");
 	if (g_t[0].data == &g_payload[TS_N])
